@@ -16,6 +16,9 @@ What is generated (all sizes small, names drawn from tiny pools so that they col
   * `rep(n, i)` with n in 0..3 (literal, 'n' parameter, outer iterator, small arithmetic), the iterator used in
     arithmetic in the arguments, rep inside rep with the same iterator name, iterator named like a parameter (shadowing)
   * `$`, wflip, pad, segment, reserve
+  * directed family: `rep` whose count evaluates to 0 (literal, constant, macro parameter, comparison) of a callee that
+    is NOT defined (unknown name, or a defined name with another arity), at top level, in namespaces, inside macros,
+    inside an outer rep: it contributes nothing and the program must assemble
   * a small share of deliberately broken programs (unknown macro, wrong arity, nesting deeper than the allowed depth,
     a number passed where a label is declared, extern macro expanded twice, unresolvable rep count)
 
@@ -38,6 +41,7 @@ class Program:
         self.depth = 900       # max_recursion_depth to assemble with
         self.tags = set()
         self.broken = None     # kind of deliberate defect, or None
+        self.consts = {}       # full name -> value of the constants `X = value` (defined first in the source)
 
     @property
     def main(self):
@@ -402,6 +406,88 @@ class Gen:
         self.prog.tags.add('extern')
         return m
 
+    # -- rep with a count of 0 and an undefined callee
+    def undefined_callee(self, ns):
+        """(spelled name, number of arguments) of a macro that is not defined for that name/arity"""
+        rng = self.rng
+        defined = [m for m in self.prog.macros.values()]
+        if defined and rng.random() < 0.4:
+            m = rng.choice(defined)
+            for k in rng.sample(range(0, 5), 5):
+                if (m['full'], k) not in self.prog.macros:
+                    self.prog.tags.add('rep0-other-arity')
+                    return spell(rng, m['full'], ns, self.prog.tags), k
+        full = '.'.join(rng.choice(self.namespaces) + [rng.choice(['nosuch', 'opt', 'trace'])])
+        k = rng.randrange(0, 3)
+        while (full, k) in self.prog.macros:
+            full += '_'
+        return spell(rng, full, ns, self.prog.tags), k
+
+    def rep0_family(self):
+        """-> main statements [(ns, stmt)]; defines the constant ZERO and helper macros in self.prog.macros"""
+        rng = self.rng
+        prog = self.prog
+        prog.consts['ZERO'] = 0
+        prog.tags.add('rep0-undefined-callee')
+
+        def args_for(k, names):
+            return [rng.choice(names + [1, 7]) for _ in range(k)]
+
+        out = []
+        helpers = {}
+        for base in rng.sample(['rz0', 'rz1', 'rz2'], rng.choice([1, 2, 3])):
+            ns = rng.choice(self.namespaces)
+            full = '.'.join(ns + [base])
+            if base == 'rz0':        # count = a parameter that the callers bind to 0
+                sp, k = self.undefined_callee(ns)
+                it = rng.choice(ITERS)
+                body = [{'t': 'rep', 'times': ('n', 'n'), 'iter': it, 'name': sp, 'args': args_for(k, [('n', it), ('n', 'v')])},
+                        {'t': 'fj', 'f': None, 'j': ('n', 'v')}]
+                m = {'params': ['n', 'v'], 'kinds': ['n', 'v']}
+            elif base == 'rz1':      # count = a comparison that is false
+                sp, k = self.undefined_callee(ns)
+                body = [{'t': 'fj', 'f': ('n', 'n'), 'j': None},
+                        {'t': 'rep', 'times': ('op', '>', [('n', 'n'), 1]), 'iter': 'j', 'name': sp,
+                         'args': args_for(k, [('n', 'j'), ('n', 'n')])}]
+                m = {'params': ['n'], 'kinds': ['n']}
+            else:                    # count = the constant; and a nested call that binds rz0's count to 0
+                sp, k = self.undefined_callee(ns)
+                body = [{'t': 'rep', 'times': ('n', 'ZERO'), 'iter': 'i', 'name': sp, 'args': args_for(k, [('n', 'i'), ('n', 'v')])},
+                        {'t': 'wflip', 'a': ('n', 'v'), 'v': 1, 'r': None}]
+                if 'rz0' in helpers:
+                    body.append({'t': 'call', 'name': spell(rng, helpers['rz0']['full'], ns, prog.tags),
+                                 'args': [rng.choice([0, ('n', 'ZERO')]), ('n', 'v')]})
+                m = {'params': ['v'], 'kinds': ['v']}
+            m.update({'ns': list(ns), 'base': base, 'full': full, 'locals': [], 'body': body, 'globals': [], 'externs': [],
+                      'level': 99})
+            prog.macros[(full, len(m['params']))] = m
+            helpers[base] = m
+        for _ in range(rng.choice([2, 3, 4, 5])):
+            ns = rng.choice(self.namespaces)
+            r = rng.random()
+            if r < 0.35 or not helpers:
+                sp, k = self.undefined_callee(ns)
+                it = rng.choice(ITERS)
+                times = rng.choice([0, 0, ('n', 'ZERO')])
+                out.append((ns, {'t': 'rep', 'times': times, 'iter': it, 'name': sp, 'args': args_for(k, [('n', it)])}))
+                continue
+            m = rng.choice(list(helpers.values()))
+            if m['base'] == 'rz0':
+                args = [rng.choice([0, ('n', 'ZERO')]), rng.choice([5, 64, ('n', '$')] if False else [5, 64, 200])]
+            elif m['base'] == 'rz1':
+                args = [rng.choice([0, 1])]
+            else:
+                args = [rng.choice([3, 128])]
+            name = spell(rng, m['full'], ns, prog.tags)
+            if r < 0.6 and m['base'] != 'rz1':
+                # from inside an outer rep
+                it = rng.choice(ITERS)
+                args = [a if i == 0 and m['base'] == 'rz0' else ('n', it) for i, a in enumerate(args)]
+                out.append((ns, {'t': 'rep', 'times': rng.choice([1, 2, 3]), 'iter': it, 'name': name, 'args': args}))
+            else:
+                out.append((ns, {'t': 'call', 'name': name, 'args': args}))
+        return out
+
     # -- whole program
     def build(self):
         rng = self.rng
@@ -474,6 +560,9 @@ class Gen:
             ns = rng.choice(self.namespaces)
             stmts.insert(rng.randrange(len(stmts) + 1),
                          (ns, {'t': 'call', 'name': spell(rng, m['full'], ns, prog.tags), 'args': []}))
+        if rng.random() < 0.2:
+            for ns_, st in self.rep0_family():
+                stmts.insert(rng.randrange(len(stmts) + 1), (ns_, st))
         # whatever is still pending is declared by a label statement after all
         for full in pending:
             parts = full.split('.')
@@ -499,6 +588,8 @@ class Gen:
         rng.shuffle(defs)
         for d in defs:
             units.insert(rng.randrange(len(units) + 1), d)
+        for name, value in prog.consts.items():       # constants first: they are substituted while parsing
+            units.insert(0, ('const', [], name, value))
         prog.units = units
         self.break_something()
         return prog
@@ -511,7 +602,7 @@ class Gen:
         if r > 0.1:
             return
         calls = [i for i, u in enumerate(prog.units) if u[0] == 'stmt' and u[2]['t'] == 'call']
-        kind = rng.choice(['unknown', 'arity', 'depth', 'depth0', 'swap', 'extern-twice', 'rep-count', 'layout'])
+        kind = rng.choice(['unknown', 'arity', 'depth', 'depth0', 'swap', 'extern-twice', 'rep-count', 'layout', 'rep-undefined'])
         if kind == 'layout':
             # statements the preprocessor itself rejects while laying out addresses (the inlined program is rejected alike)
             w = prog.w
@@ -529,6 +620,13 @@ class Gen:
                 prog.units.append(('stmt', [], st))
             prog.broken = kind
             prog.tags.add('broken:layout')
+            return
+        if kind == 'rep-undefined':
+            # the control of the rep-0 family: a positive count of an undefined callee must be rejected
+            prog.units.append(('stmt', [], {'t': 'rep', 'times': rng.choice([1, 2, ('op', '>', [5, ('n', '$')])][:2]), 'iter': 'i',
+                                            'name': 'nosuch', 'args': [('n', 'i')]}))
+            prog.broken = kind
+            prog.tags.add('broken:rep-undefined')
             return
         if kind == 'unknown':
             prog.units.insert(rng.randrange(1, len(prog.units) + 1),
@@ -638,7 +736,10 @@ def _emit(units, depth, rng):
         u = units[i]
         ns = u[1]['ns'] if u[0] == 'def' else u[1]
         if len(ns) == depth:
-            chunks.append(def_src(u[1], ind) if u[0] == 'def' else [ind + stmt_src(u[2])])
+            if u[0] == 'const':
+                chunks.append([ind + f'{u[2]} = {u[3]}'])
+            else:
+                chunks.append(def_src(u[1], ind) if u[0] == 'def' else [ind + stmt_src(u[2])])
             i += 1
             continue
         name = ns[depth]
